@@ -1,5 +1,6 @@
 import WhVerif.Model.C10Detect
 import WhVerif.Lemmas.C06NoRef
+import WhVerif.Lemmas.C06Enum
 /-!
 # C10 — lemmas for `Model/C10Detect.lean`: the merge rule of `create_read_from_group`, the aligned query index
 -/
@@ -158,5 +159,220 @@ theorem groupRead_pair (thr : Int) (a1 a2 : AlnRead) (h1 : a1.supplementary = fa
     rintro (h | h)
     · exact e2 _ h
     · exact hn h
+
+/-! ## the no-reference walker on SNVs: calls ↔ aligned query index -/
+section Walker
+open WhVerif.C06
+
+theorem mem_dropWhile_of_not {α} (p : α → Bool) (l : List α) (x : α) (hx : x ∈ l) (hp : p x = false) : x ∈ l.dropWhile p := by
+  induction l with
+  | nil => cases hx
+  | cons y ys ih =>
+    simp only [List.dropWhile_cons]
+    by_cases hy : p y = true
+    · simp only [hy, if_true]
+      rcases List.mem_cons.1 hx with rfl | h
+      · rw [hp] at hy; cases hy
+      · exact ih h
+    · simp only [hy]; exact hx
+
+theorem mem_takeWhile_sorted (vps : List VP) (hs : SortedP vps) (b : Nat) (x : VP) (hx : x ∈ vps) (hb : x.2.pos < b) :
+    x ∈ vps.takeWhile (fun p => p.2.pos < b) := by
+  induction vps with
+  | nil => cases hx
+  | cons y ys ih =>
+    simp only [SortedP, List.pairwise_cons] at hs
+    simp only [List.takeWhile_cons]
+    rcases List.mem_cons.1 hx with rfl | h
+    · simp [hb]
+    · have : y.2.pos < b := by have := hs.1 x h; omega
+      simp only [this, decide_true, if_true]
+      exact List.mem_cons_of_mem _ (ih hs.2 h)
+
+/-- every call of the walker is the call of an SNV of the list by the query base aligned to it -/
+theorem snvExpected_sound (query : Seq) (quals : Option (List Nat)) (c : Cigar) :
+    ∀ (rp qp : Nat) (vps : List VP), SortedP vps → ∀ t ∈ snvExpected query quals rp qp vps c,
+      ∃ x ∈ vps, ∃ q, mIdx x.2.pos rp qp c = some q ∧ snvCall query quals x.1 x.2 q = some t := by
+  induction c with
+  | nil => intro rp qp vps _ t ht; simp [snvExpected] at ht
+  | cons x rest ih =>
+    obtain ⟨op, len⟩ := x
+    intro rp qp vps hs t ht
+    have hs' := sortedP_dropWhile vps hs (fun p => decide (p.2.pos < rp))
+    have hge := dropWhile_ge_sorted vps hs rp
+    simp only [snvExpected] at ht
+    simp only [mIdx]
+    by_cases hm : isMatch op = true
+    · simp only [hm, if_true] at ht ⊢
+      rcases List.mem_append.1 ht with h | h
+      · obtain ⟨y, hy, hcall⟩ := List.mem_filterMap.1 h
+        obtain ⟨hlt, hyd⟩ := mem_takeWhile_both _ _ y hy
+        have hlt' : y.2.pos < rp + len := by simpa using hlt
+        have h1 := hge y hyd
+        exact ⟨y, mem_dropWhile_mem _ _ _ hyd, qp + (y.2.pos - rp), by simp [h1, hlt'], hcall⟩
+      · obtain ⟨y, hy, q, hq, hcall⟩ := ih (rp + len) (qp + len) _ (sortedP_dropWhile _ hs' _) t h
+        have hy1 := mem_dropWhile_mem _ _ _ hy
+        have h2 := dropWhile_ge_sorted _ hs' (rp + len) y hy
+        refine ⟨y, mem_dropWhile_mem _ _ _ hy1, q, ?_, hcall⟩
+        have : ¬ (rp ≤ y.2.pos ∧ y.2.pos < rp + len) := by omega
+        simp only [this, if_false]; exact hq
+    · simp only [hm, Bool.false_eq_true, if_false] at ht ⊢
+      by_cases h14 : (op == 1 || op == 4) = true
+      · simp only [h14, if_true] at ht ⊢
+        obtain ⟨y, hy, q, hq, hcall⟩ := ih rp (qp + len) _ hs' t ht
+        exact ⟨y, mem_dropWhile_mem _ _ _ hy, q, hq, hcall⟩
+      · simp only [h14, Bool.false_eq_true, if_false] at ht ⊢
+        by_cases h23 : (op == 2 || op == 3) = true
+        · simp only [h23, if_true] at ht ⊢
+          obtain ⟨y, hy, q, hq, hcall⟩ := ih (rp + len) qp _ (sortedP_dropWhile _ hs' _) t ht
+          have hy1 := mem_dropWhile_mem _ _ _ hy
+          have h2 := dropWhile_ge_sorted _ hs' (rp + len) y hy
+          refine ⟨y, mem_dropWhile_mem _ _ _ hy1, q, ?_, hcall⟩
+          have : ¬ (rp ≤ y.2.pos ∧ y.2.pos < rp + len) := by omega
+          simp only [this, if_false]; exact hq
+        · simp only [h23, Bool.false_eq_true, if_false] at ht ⊢
+          obtain ⟨y, hy, q, hq, hcall⟩ := ih rp qp _ hs' t ht
+          exact ⟨y, mem_dropWhile_mem _ _ _ hy, q, hq, hcall⟩
+
+/-- `mIdx` finds nothing left of the running reference position -/
+theorem mIdx_lt (p : Nat) (c : Cigar) : ∀ rp qp, p < rp → mIdx p rp qp c = none := by
+  induction c with
+  | nil => intros; rfl
+  | cons x rest ih =>
+    obtain ⟨op, len⟩ := x
+    intro rp qp h
+    simp only [mIdx]
+    have h1 : ¬ (rp ≤ p ∧ p < rp + len) := by omega
+    simp only [h1, if_false]
+    split
+    · exact ih _ _ (by omega)
+    · split
+      · exact ih _ _ h
+      · split
+        · exact ih _ _ (by omega)
+        · exact ih _ _ h
+
+/-- … and every SNV of the (position-sorted) list that lies in an M/=/X block is called by the base aligned to it -/
+theorem snvExpected_complete (query : Seq) (quals : Option (List Nat)) (c : Cigar) :
+    ∀ (rp qp : Nat) (vps : List VP), SortedP vps → ∀ x ∈ vps, ∀ q t, mIdx x.2.pos rp qp c = some q →
+      snvCall query quals x.1 x.2 q = some t → t ∈ snvExpected query quals rp qp vps c := by
+  induction c with
+  | nil => intro rp qp vps _ x _ q t hq; simp [mIdx] at hq
+  | cons y rest ih =>
+    obtain ⟨op, len⟩ := y
+    intro rp qp vps hs x hx q t hq hcall
+    have hs' := sortedP_dropWhile vps hs (fun p => decide (p.2.pos < rp))
+    have hrp : rp ≤ x.2.pos := by
+      rcases Nat.lt_or_ge x.2.pos rp with h | h
+      · rw [mIdx_lt _ _ _ _ h] at hq; cases hq
+      · exact h
+    have hx' : x ∈ vps.dropWhile (fun p => decide (p.2.pos < rp)) :=
+      mem_dropWhile_of_not _ _ _ hx (by simp; omega)
+    simp only [snvExpected]
+    simp only [mIdx] at hq
+    by_cases hm : isMatch op = true
+    · simp only [hm, if_true] at hq ⊢
+      by_cases hin : x.2.pos < rp + len
+      · have : rp ≤ x.2.pos ∧ x.2.pos < rp + len := ⟨hrp, hin⟩
+        simp only [this, and_self, if_true, Option.some.injEq] at hq
+        subst hq
+        exact List.mem_append_left _ (List.mem_filterMap.2 ⟨x, mem_takeWhile_sorted _ hs' _ x hx' hin, hcall⟩)
+      · have : ¬ (rp ≤ x.2.pos ∧ x.2.pos < rp + len) := by omega
+        simp only [this, if_false] at hq
+        exact List.mem_append_right _ (ih _ _ _ (sortedP_dropWhile _ hs' _) x
+          (mem_dropWhile_of_not _ _ _ hx' (by simp; omega)) q t hq hcall)
+    · simp only [hm, Bool.false_eq_true, if_false] at hq ⊢
+      by_cases h14 : (op == 1 || op == 4) = true
+      · simp only [h14, if_true] at hq ⊢
+        exact ih _ _ _ hs' x hx' q t hq hcall
+      · simp only [h14, Bool.false_eq_true, if_false] at hq ⊢
+        by_cases h23 : (op == 2 || op == 3) = true
+        · simp only [h23, if_true] at hq ⊢
+          by_cases hin : x.2.pos < rp + len
+          · have : rp ≤ x.2.pos ∧ x.2.pos < rp + len := ⟨hrp, hin⟩
+            simp [this] at hq
+          · have : ¬ (rp ≤ x.2.pos ∧ x.2.pos < rp + len) := by omega
+            simp only [this, if_false] at hq
+            exact ih _ _ _ (sortedP_dropWhile _ hs' _) x (mem_dropWhile_of_not _ _ _ hx' (by simp; omega)) q t hq hcall
+        · simp only [h23, Bool.false_eq_true, if_false] at hq ⊢
+          exact ih _ _ _ hs' x hx' q t hq hcall
+
+/-- the aligned index of a position lies inside the alignment's reference span -/
+theorem mIdx_span (p : Nat) (c : Cigar) : ∀ rp qp q, mIdx p rp qp c = some q → rp ≤ p ∧ p < rp + refLen c := by
+  induction c with
+  | nil => intro rp qp q h; simp [mIdx] at h
+  | cons x rest ih =>
+    obtain ⟨op, len⟩ := x
+    intro rp qp q h
+    simp only [mIdx] at h
+    simp only [refLen, consumesRef]
+    by_cases hm : isMatch op = true
+    · simp only [hm, if_true, Bool.true_or] at h ⊢
+      by_cases hin : rp ≤ p ∧ p < rp + len
+      · omega
+      · simp only [hin, if_false] at h
+        have := ih _ _ _ h; omega
+    · simp only [hm, Bool.false_eq_true, if_false, Bool.false_or] at h ⊢
+      by_cases h14 : (op == 1 || op == 4) = true
+      · simp only [h14, if_true] at h
+        have := ih _ _ _ h
+        have h2 : (op == 2 || op == 3) = false := by
+          rcases (Bool.or_eq_true_iff).1 h14 with e | e <;> (have := eq_of_beq e; subst this; rfl)
+        simp only [h2, Bool.false_eq_true, if_false]; omega
+      · simp only [h14, Bool.false_eq_true, if_false] at h
+        by_cases h23 : (op == 2 || op == 3) = true
+        · simp only [h23, if_true] at h ⊢
+          by_cases hin : rp ≤ p ∧ p < rp + len
+          · simp [hin] at h
+          · simp only [hin, if_false] at h
+            have := ih _ _ _ h; omega
+        · simp only [h23, Bool.false_eq_true, if_false] at h ⊢
+          have := ih _ _ _ h; omega
+
+/-- a leading soft clip moves the query cursor, a leading hard clip nothing: the typed positions stay -/
+theorem mIdx_softclip (p n rp qp : Nat) (c : Cigar) : mIdx p rp qp ((4, n) :: c) = mIdx p rp (qp + n) c := by
+  simp [mIdx, isMatch]
+
+theorem mIdx_hardclip (p n rp qp : Nat) (c : Cigar) : mIdx p rp qp ((5, n) :: c) = mIdx p rp qp c := by
+  simp [mIdx, isMatch]
+
+/-- first aligned base of a match block that follows clips only -/
+theorem mIdx_shift (p : Nat) (c : Cigar) : ∀ rp qp k, mIdx p rp (qp + k) c = (mIdx p rp qp c).map (· + k) := by
+  induction c with
+  | nil => intros; rfl
+  | cons x rest ih =>
+    obtain ⟨op, len⟩ := x
+    intro rp qp k
+    simp only [mIdx]
+    split
+    · split
+      · simp; omega
+      · rw [show qp + k + len = qp + len + k by omega]; exact ih _ _ _
+    · split
+      · rw [show qp + k + len = qp + len + k by omega]; exact ih _ _ _
+      · split
+        · split
+          · rfl
+          · exact ih _ _ _
+        · exact ih _ _ _
+
+/-- a trailing clip types nothing and moves nothing -/
+theorem mIdx_append_clip (p : Nat) (c : Cigar) (op n : Nat) (h : op = 4 ∨ op = 5) :
+    ∀ rp qp, mIdx p rp qp (c ++ [(op, n)]) = mIdx p rp qp c := by
+  induction c with
+  | nil => intro rp qp; rcases h with rfl | rfl <;> simp [mIdx, isMatch]
+  | cons x rest ih =>
+    obtain ⟨o, l⟩ := x
+    intro rp qp
+    simp only [List.cons_append, mIdx, ih]
+
+theorem enumFrom_fun {α} (l : List α) (n k : Nat) (x y : α) (hx : (k, x) ∈ enumFrom n l) (hy : (k, y) ∈ enumFrom n l) :
+    x = y := by
+  have a := ((mem_enumFrom' l n k x).1 hx).2
+  have b := ((mem_enumFrom' l n k y).1 hy).2
+  rw [a] at b
+  exact Option.some.inj b
+
+end Walker
 
 end WhVerif.C10
